@@ -63,7 +63,9 @@ func (sdb *PreparedStmtDB) Reset() {
 	sdb.Mux.Lock()
 	defer sdb.Mux.Unlock()
 
-	for _, stmt := range sdb.Stmts {
+	// empty the map in place: session handles (DB.Session with PrepareStmt) hold a reference to
+	// this very map and must see the reset
+	for query, stmt := range sdb.Stmts {
 		go func(s *Stmt) {
 			// make sure the stmt must finish preparation first
 			<-s.prepared
@@ -71,8 +73,11 @@ func (sdb *PreparedStmtDB) Reset() {
 				_ = s.Close()
 			}
 		}(stmt)
+		delete(sdb.Stmts, query)
 	}
-	sdb.Stmts = make(map[string]*Stmt)
+	if sdb.Stmts == nil {
+		sdb.Stmts = make(map[string]*Stmt)
+	}
 }
 
 func (db *PreparedStmtDB) prepare(ctx context.Context, conn ConnPool, isTransaction bool, query string) (Stmt, error) {
